@@ -91,3 +91,13 @@ def texts_of_xml(text):
     for el in root.iter():
         if el.text is not None: out.append(el.text.strip())
     return out
+
+def py2sx_tree(v):
+    """like py2sx, but raw XML elements are given as infosets (what the parser produced them from)"""
+    from opcua_tools import ua_data_types as T
+    if isinstance(v, T.UAXMLElement):
+        try: return [Sym("xmltree"), el2sx(ET.fromstring(v.value))]
+        except Exception: return [Sym("xmlraw"), v.value]
+    if isinstance(v, T.UAExtensionObject): return [Sym("ext"), [v.type_nodeid.namespace, v.type_nodeid.nodeid_type.value, str(v.type_nodeid.value)], py2sx_tree(v.body)]
+    if isinstance(v, T.UAListOf): return [Sym("list"), v.typename, [py2sx_tree(x) for x in v.value]]
+    return py2sx(v)
